@@ -38,6 +38,7 @@ type flipRes struct {
 	Bit     int          `json:"bit"`
 	Outcome string       `json:"outcome"`
 	V       evid.Verdict `json:"v"`
+	Note    string       `json:"note,omitempty"` // parent side: first stderr lines of a worker that died
 }
 
 const workerBudget = 768 << 20 // address space a worker may add to what it has at start
@@ -54,10 +55,11 @@ func vmSize() uint64 {
 
 // workerMain serves flip requests on stdin until EOF.
 func workerMain() {
+	lim := uint64(3 << 30) // when /proc is not readable: what a Go test binary maps at start is a little over 1 GiB
 	if vm := vmSize(); vm > 0 {
-		lim := vm + workerBudget
-		syscall.Setrlimit(syscall.RLIMIT_AS, &syscall.Rlimit{Cur: lim, Max: lim})
+		lim = vm + workerBudget
 	}
+	syscall.Setrlimit(syscall.RLIMIT_AS, &syscall.Rlimit{Cur: lim, Max: lim})
 	debug.SetMemoryLimit(192 << 20)
 	in := bufio.NewReaderSize(os.Stdin, 1<<20)
 	for {
@@ -150,7 +152,7 @@ func startWorker() (*worker, error) {
 		return nil, err
 	}
 	cmd := exec.Command(exe, "-test.run=^$")
-	cmd.Env = append(os.Environ(), "C19_WORKER=1", "VERIF_STATUS=", "VERIF_EVIDENCE=/dev/null", "GOTRACEBACK=single")
+	cmd.Env = append(os.Environ(), "C19_WORKER=1", "VERIF_STATUS=", "VERIF_EVIDENCE=/dev/null", "GOTRACEBACK=single", "GOMAXPROCS=2")
 	w := &worker{cmd: cmd, stderr: &tailBuf{}}
 	cmd.Stderr = w.stderr
 	if w.in, err = cmd.StdinPipe(); err != nil {
@@ -240,7 +242,7 @@ func (f *flipper) run(c Case, lo, hi int, emit func(flipRes)) error {
 			// a bit the service cannot check must be accepted; a process death is not acceptance
 			fatal.V = evid.Fail("fatal:valid-pac", "worker died twice on a PAC that must be accepted (bit %d): %s", lo, cause)
 		}
-		fatal.Outcome = "fatal:" + fatalClass(cause)
+		fatal.Outcome, fatal.Note = "fatal:"+fatalClass(cause), cause
 		emit(fatal)
 		lo++
 	}
@@ -253,6 +255,8 @@ func fatalClass(stderr string) string {
 		return "out-of-memory"
 	case strings.Contains(stderr, "stack overflow"), strings.Contains(stderr, "stack exceeds"):
 		return "stack-overflow"
+	case strings.Contains(stderr, "pthread_create failed"), strings.Contains(stderr, "failed to create new OS thread"):
+		return "address-space-cap-hit-by-runtime" // the cap, not the allocation itself, ended the process: still memory pressure from the flipped bit
 	case stderr == "":
 		return "killed"
 	}
